@@ -24,8 +24,13 @@ def sh(cmd, cwd=None, env=None, timeout=3000):
     return p.returncode, (p.stdout + p.stderr)
 
 
+ROOT = os.environ.get("SEED_ROOT", "/tmp/seed")
+# round 2 (SEED_ROOT=/tmp/seed2): the agents' A/B are stored as C/D
+RENAME = {"A": "C", "B": "D"} if ROOT.rstrip("/").endswith("seed2") else {"A": "A", "B": "B", "C": "C", "D": "D"}
+
+
 def confirm(pid, x):
-    wt = "/tmp/seed/" + pid
+    wt = ROOT + "/" + pid
     out = os.path.join(wt, "_out")
     env = {"PYTHONPATH": os.path.join(wt, "src")}
     sh("git checkout -- .", cwd=wt)
@@ -43,7 +48,7 @@ def confirm(pid, x):
         print("NOT CONFIRMED")
         print(o0[-500:], o1[-500:])
         return 1
-    dst = os.path.join(VERIF, "seeded", "%s-%s" % (pid, x))
+    dst = os.path.join(VERIF, "seeded", "%s-%s" % (pid, RENAME[x]))
     os.makedirs(dst, exist_ok=True)
     shutil.copy(os.path.join(out, x + ".diff"), os.path.join(dst, "patch.diff"))
     shutil.copy(os.path.join(out, "demo_%s.py" % x), os.path.join(dst, "demo.py"))
@@ -55,7 +60,7 @@ def confirm(pid, x):
     meta = {"property": pid, "summary": notes.get("summary"), "needs_to_manifest": notes.get("needs_to_manifest"),
             "confirmed": {"demo_on_clean_tree": "exit 0", "demo_with_patch": "exit %d" % rc1,
                           "baseline_with_patch": ob.strip().split("\n")[-1],
-                          "how": "harness/seedtool.py confirm (scratch worktree /tmp/seed/%s, PYTHONPATH=<worktree>/src)" % pid},
+                          "how": "harness/seedtool.py confirm (scratch worktree %s/%s, PYTHONPATH=<worktree>/src)" % (ROOT, pid)},
             "demo_output_with_patch": o1[-600:], "checks": {}}
     json.dump(meta, open(os.path.join(dst, "meta.json"), "w"), indent=1, ensure_ascii=False)
     print("CONFIRMED ->", dst)
@@ -67,7 +72,7 @@ def run_wt(pid, x, prop=None, tier="quick"):
     going on in /repo); the final record is made with `run`"""
     prop = prop or pid
     dst = os.path.join(VERIF, "seeded", "%s-%s" % (pid, x))
-    wt = "/tmp/seed/" + pid
+    wt = ("/tmp/seed2/" if x in ("C", "D") and os.path.isdir("/tmp/seed2/" + pid) else "/tmp/seed/") + pid
     sh("git checkout -- .", cwd=wt)
     # bring the scratch worktree to /repo's current HEAD (fix: commits may have landed since the seed was written)
     rc0, head = sh(["git", "-C", "/repo", "rev-parse", "HEAD"])
